@@ -250,6 +250,83 @@ func extractC14(c *ctxT) {
 	sb.WriteString("def handlerOrder : List String := " + q(order) + "\n\n")
 	c.facts["C14.handlerOrder"] = order
 
+	// ---- the handlers registered with the keeper (app wiring): constructors passed to SetMigrateI, in order; and for every
+	// constructor the handler type it returns with what that type's Validate / Execute do at the top level ("nil" = the
+	// body is a bare `return nil`)
+	var handlers []string
+	for _, fd := range c.funcDecls("app/keepers") {
+		if fd.Body == nil {
+			continue
+		}
+		ast.Inspect(fd.Body, func(n ast.Node) bool {
+			ce, ok := n.(*ast.CallExpr)
+			if !ok {
+				return true
+			}
+			se, ok := ce.Fun.(*ast.SelectorExpr)
+			if !ok || se.Sel.Name != "SetMigrateI" {
+				return true
+			}
+			for _, a := range ce.Args {
+				name := c.src(a)
+				if ac, ok := a.(*ast.CallExpr); ok {
+					switch f := ac.Fun.(type) {
+					case *ast.SelectorExpr:
+						name = f.Sel.Name
+					case *ast.Ident:
+						name = f.Name
+					}
+				}
+				handlers = append(handlers, name)
+			}
+			return true
+		})
+	}
+	var handlerTypes [][2]string  // (constructor, type it returns)
+	var handlerBodies [][2]string // (Type.Method, "nil" | "code")
+	for _, fd := range c.funcDecls(c14Keeper) {
+		if fd.Recv == nil && fd.Body != nil && strings.HasPrefix(fd.Name.Name, "New") && strings.HasSuffix(fd.Name.Name, "Migrate") {
+			ty := "?"
+			ast.Inspect(fd.Body, func(n ast.Node) bool {
+				if cl, ok := n.(*ast.CompositeLit); ok && ty == "?" {
+					ty = c.src(cl.Type)
+				}
+				return true
+			})
+			handlerTypes = append(handlerTypes, [2]string{fd.Name.Name, ty})
+		}
+		if fd.Recv != nil && fd.Body != nil && (fd.Name.Name == "Validate" || fd.Name.Name == "Execute") && len(fd.Recv.List) == 1 {
+			rt := strings.TrimPrefix(c.src(fd.Recv.List[0].Type), "*")
+			if !strings.HasSuffix(rt, "Migrate") {
+				continue
+			}
+			kind := "code"
+			if len(fd.Body.List) == 1 {
+				if rs, ok := fd.Body.List[0].(*ast.ReturnStmt); ok && len(rs.Results) == 1 && c.src(rs.Results[0]) == "nil" {
+					kind = "nil"
+				}
+			}
+			handlerBodies = append(handlerBodies, [2]string{rt + "." + fd.Name.Name, kind})
+		}
+	}
+	sort.Slice(handlerTypes, func(i, j int) bool { return handlerTypes[i][0] < handlerTypes[j][0] })
+	sort.Slice(handlerBodies, func(i, j int) bool { return handlerBodies[i][0] < handlerBodies[j][0] })
+	sb.WriteString("/-- constructors of the handlers registered with the migrate keeper (`SetMigrateI` in app/keepers), in order -/\n")
+	sb.WriteString("def migrateHandlers : List String := " + q(handlers) + "\n")
+	c.facts["C14.migrateHandlers"] = handlers
+	pairs2 := func(xs [][2]string) string {
+		var o []string
+		for _, x := range xs {
+			o = append(o, "("+leanStr(x[0])+", "+leanStr(x[1])+")")
+		}
+		return leanList(o)
+	}
+	sb.WriteString("/-- (constructor, handler type it returns) and (Type.Method, `nil` when the body is a bare `return nil`, else `code`) -/\n")
+	sb.WriteString("def handlerTypes : List (String × String) := " + pairs2(handlerTypes) + "\n")
+	sb.WriteString("def handlerBodies : List (String × String) := " + pairs2(handlerBodies) + "\n\n")
+	c.facts["C14.handlerTypes"] = handlerTypes
+	c.facts["C14.handlerBodies"] = handlerBodies
+
 	// ---- migration records: which predicate guards which address, which key each predicate reads, which keys are written
 	pair := func(xs [][2]string) string {
 		var o []string
@@ -659,6 +736,9 @@ func extractC14(c *ctxT) {
 			return true
 		})
 	}
+	sb.WriteString("/-- the rejecting checks of `DistrStakingMigrate.Validate` in source order (a program the model interprets) -/\n")
+	sb.WriteString("def stakingValidateProgram : List String := " + q(checks) + "\n")
+	c.facts["C14.stakingValidateProgram"] = append([]string{}, checks...)
 	sort.Strings(checks)
 	sb.WriteString("/-- rejecting checks found in `DistrStakingMigrate.Validate` -/\n")
 	sb.WriteString("def stakingValidateChecks : List String := " + q(checks) + "\n\n")
